@@ -266,7 +266,7 @@ fn make_case_s(timeout: Option<u32>, fail: bool, durs: &[u32], mailbox: Mailbox,
     if fail {
         clients.push(ClientSpec { init: vec![HInit::Addr], ops: vec![Op::Sleep(total), Op::Halt(H::Addr(0))] });
     }
-    let desc = format!("timeout t={timeout:?} fail={fail} durations={durs:?} mailbox={} layout={layout} strategy={strat:?}", mailbox.name());
+    let desc = format!("timeout{} t={timeout:?} fail={fail} durations={durs:?} mailbox={} layout={layout} strategy={strat:?}", crate::progscene::variant_tag(), mailbox.name());
     Case {
         desc,
         exec: ExecCfg { horizon: 200, ..ExecCfg::default() },
@@ -282,7 +282,7 @@ fn make_case_s(timeout: Option<u32>, fail: bool, durs: &[u32], mailbox: Mailbox,
     }
 }
 
-fn cases(tier: Tier) -> Vec<Case> {
+fn base_cases(tier: Tier) -> Vec<Case> {
     let mut v = vec![];
     let ts: &[u32] = &[1, 2, 5];
     let mbs = [Mailbox::U, Mailbox::B(1)];
@@ -354,6 +354,19 @@ fn cases(tier: Tier) -> Vec<Case> {
                 }
             }
         }
+    }
+    v
+}
+
+/// The family with the builder's timeout options in the documented order, plus every fifth
+/// case (thorough: every second) in each of the three other orders the builder allows.
+fn cases(tier: Tier) -> Vec<Case> {
+    let mut v = base_cases(tier);
+    for order in 1..=3u8 {
+        let var = crate::progscene::Variant { builder_order: order, ..Default::default() };
+        let extra = crate::progscene::with_variant(var, || base_cases(tier));
+        let step = if tier == Tier::Thorough { 2 } else { 5 };
+        v.extend(extra.into_iter().enumerate().filter(|(i, c)| i % step == (order as usize) % step && !c.desc.contains("t=None")).map(|(_, c)| c));
     }
     v
 }
